@@ -14,7 +14,7 @@ RULE = ("four block kinds x seeded contents (0..6 items; duplicate labels, empty
         "stripping, case folding or unicode normalisation would identify with a present label, item objects, None, 1.5, b'x', "
         "numpy integers; observed: identity of the returned item / exception class, membership, len, iteration, and the block's "
         "encoding before and after; then up to three in-place edits through public attributes (an item relabelled, possibly to a "
-        "label another item carries; an item deleted; the item list reversed) each followed by the same questions; non-trivial = block with a duplicate label or >=2 items; distinct by (kind, labels)")
+        "label another item carries; an item deleted; the item list reversed; an add that the block refuses) each followed by the same questions; non-trivial = block with a duplicate label or >=2 items; distinct by (kind, labels)")
 ASSUMPTIONS = ["labels are compared as exact strings; item identity = python object identity"]
 LABELS = ["", "a", "A", " a", "a ", "c7", "é", "b"]
 # labels a stored/normalised form of which collides with another label: longer than a 256-byte field, with an embedded NUL,
@@ -77,6 +77,21 @@ def mk(kind, labels, rng):
     return b
 
 
+def mk_other_length(kind, blk, rng):
+    """a one-item block of the same kind whose item has ANOTHER number of frames than blk's"""
+    n = blk.nFrames + 2
+    if kind == "data3d":
+        from basictdf.tdfData3D import Data3D, MarkerTrack
+        b = Data3D(100, n, A.f32(A.gen_vec(rng, 3)), A.f32(A.gen_vec(rng, 9)).reshape(3, 3), A.f32(A.gen_vec(rng, 3)))
+        b.add_track(MarkerTrack("refused", A.frames_array(A.gen_frames(rng, 3, n), 3)))
+        return b
+    from basictdf.tdfForce3D import ForceTorque3D, ForceTorqueTrack
+    b = ForceTorque3D(100, n, A.f32(A.gen_vec(rng, 3)), A.f32(A.gen_vec(rng, 9)).reshape(3, 3), A.f32(A.gen_vec(rng, 3)))
+    a = A.frames_array(A.gen_frames(rng, 9, n), 9)
+    b.add_track(ForceTorqueTrack("refused", a[:, 0:3].copy(), a[:, 3:6].copy(), a[:, 6:9].copy()))
+    return b
+
+
 def live_list(kind, blk):
     """the block's own item list when the public attribute hands it out (in-place edits by the caller are then possible)"""
     attr = {"data3d": "tracks", "force3d": "tracks", "events": "events"}.get(kind)
@@ -89,7 +104,23 @@ def edit(kind, blk, labels, rng):
     n = len(items)
     if n == 0:
         return None
-    what = rng.choice(["relabel-to-existing", "relabel-to-existing", "relabel-new", "delete", "reverse"])
+    what = rng.choice(["relabel-to-existing", "relabel-to-existing", "relabel-new", "delete", "reverse", "refused-add"])
+    if what == "refused-add":
+        # an addition the block must refuse (channel already taken / wrong number of frames): afterwards the block is as before
+        try:
+            if kind == "emg":
+                from basictdf.tdfEMG import EMGTrack
+                import struct
+                enc = A.encode(blk)
+                taken = struct.unpack_from("<h", enc, 16)[0]
+                blk.addSignal(EMGTrack("refused", np.zeros(len(items[0].data), dtype="<f4")), channel=taken)
+            elif kind in ("data3d", "force3d"):
+                blk.add_track(list(iter(mk_other_length(kind, blk, rng)))[0])
+            else:
+                return None
+        except Exception:
+            return list(labels), "an add that is refused"
+        return None
     if what.startswith("relabel"):
         i = rng.randrange(n)
         new = rng.choice(labels) if what == "relabel-to-existing" else rng.choice(LABELS + EXOTIC)
